@@ -142,6 +142,49 @@ def run(ctx):
     c17.sub_lohis_runs(ctx, "C18.R12")
     c17.index_then_insert(ctx, "C18.R13")
     c17.groupby_and_union_order(ctx, "C18.R14")
+    r15_wrappers_forward(ctx)
+    r16_slices_are_materialised(ctx)
+
+
+def r15_wrappers_forward(ctx, rule="C18.R15"):
+    """where_fin / where_best / ... are the documented names of filter_fin / filter_best / ...: a parameter that is not handed on silently takes its default there
+    (where_best(full_p=...) would check completeness on environment_id whatever pairing the caller asked for)."""
+    ctx.rule(rule, "the where_* methods of Result that delegate to a filter_* method hand on every one of their parameters (in order, or by keyword)")
+    cls = ctx.model.cls(RES, "Result")
+    n = 0
+    for name, fn in sorted(cls.methods.items()):
+        if not name.startswith("where_"):
+            continue
+        rets = [r.value for r in walk_shallow(fn) if isinstance(r, ast.Return) and isinstance(r.value, ast.Call) and isinstance(r.value.func, ast.Attribute)
+                and unparse(r.value.func.value) == "self" and r.value.func.attr.startswith("filter_")]
+        body = [st for st in fn.body if not (isinstance(st, ast.Expr) and isinstance(st.value, ast.Constant))]
+        if len(rets) != 1 or len(body) != 1:
+            continue
+        n += 1
+        params = [a.arg for a in fn.args.args[1:]] + [a.arg for a in fn.args.kwonlyargs]
+        c = rets[0]
+        passed = [unparse(a) for a in c.args] + [unparse(k.value) for k in c.keywords if k.arg]
+        star = any(isinstance(a, ast.Starred) for a in c.args) or any(k.arg is None for k in c.keywords)
+        ok = star or all(p_ in passed for p_ in params)
+        ctx.ob(rule, RES, f"Result.{name}", c, "every parameter of the wrapper reaches the method it delegates to", ok, detail={"parameters": params, "passed": passed})
+    ctx.floor(rule, "delegating where_* methods of Result", n, 2)
+
+
+def r16_slices_are_materialised(ctx, rule="C18.R16"):
+    """_grouped_ys takes `Y[-1]` and `Y[-span:]` of what groupby hands it: the view classes add negative positions to the view's start without wrapping, so what leaves a
+    view through a slice must be a plain list."""
+    ctx.rule(rule, "View.SliceView / View.ListView answer a slice with a materialised list (a subscript of the underlying sequence or list(...)), never with another view object")
+    n = 0
+    for cname in ("SliceView", "ListView"):
+        for (rel, qual), fn in sorted(ctx.model.functions.items()):
+            if rel != RES or not qual.endswith(f"{cname}.__getitem__"):
+                continue
+            for r in [r for r in ast.walk(fn) if isinstance(r, ast.Return) and r.value is not None]:
+                n += 1
+                v = r.value
+                view = isinstance(v, ast.Call) and (call_name(v) or "").split(".")[-1] in ("SliceView", "ListView", "View")
+                ctx.ob(rule, RES, qual, r, "what a view returns for a key is a value or a plain list", not view, detail={"returns": unparse(v)[:80]})
+    ctx.floor(rule, "returns of the view classes' __getitem__", n, 3)
 
 
 def _table_of(expr):
@@ -540,6 +583,8 @@ def r9_always_filtered(ctx, rule="C18.R9"):
 
 
 CONTROLS = [
+    ("where_best keeps full_p to itself", "coba/results/core.py", M.replace_expr("Result.where_best", "self.filter_best(l, p, y, n, full_l, full_p)", "self.filter_best(l, p, y, n, full_l)"), "C18.R15"),
+    ("a slice of a slice view is another view", "coba/results/core.py", M.replace_expr("View.SliceView.__getitem__", "self._seq[slice(new_start, new_stop)]", "View.SliceView(self._seq, slice(new_start, new_stop))"), "C18.R16"),
     ("group keys read from the leading columns", "coba/results/core.py", M.replace_expr("Table.groupby", "self._indexes[:level]", "self._columns[:level]"), "C18.R14"),
     ("from_logged_envs indexes its empty tables first", "coba/results/core.py", M.insert_before("Result.from_logged_envs", lambda st: isinstance(st, ast.FunctionDef), "int_table.index('environment_id', 'learner_id', 'evaluator_id', 'index')"), "C18.R13"),
     ("run splitter tries the previous run's length first", "coba/results/core.py", M.replace_stmt("Table._sub_lohis", M.text_has("my_bisect_right"), "new_hi = lo + 1\nif col[new_hi - 1] != col[lo]: new_hi = my_bisect_right(col, col[lo], lo, hi)"), "C18.R12"),
